@@ -6,7 +6,7 @@ non-boundary offset.
 Part 1 (this section): the item accounting. Model: NeoModel/Model/VmAcct (the VM's counter as
 vm.go / ref_counter.go / stack.go / slot.go maintain it, `reach` = what a walk finds).
 -/
-import NeoModel.Proofs.VmAcctRun
+import NeoModel.Proofs.VmAcctBase
 import NeoModel.Proofs.VmAcctGas
 import NeoModel.Proofs.ScriptCheck
 import NeoModel.Generated.Opcodes
@@ -45,8 +45,10 @@ theorem run_of_runOps : ∀ (ops : List (Op × Option (Nat × Bool))) (s s' : St
 instructions of the covered set (all frame-level instructions: slots, CALL*, RET with value
 moving and context unloading, script loading, THROW/ENDFINALLY with exception unwinding *including*
 unwinding across evaluation stacks; the stack instructions; NEWARRAY*/NEWSTRUCT*/NEWMAP, PACK,
-PACKSTRUCT, APPEND, SETITEM, REMOVE, CLEARITEMS, POPITEM, PICKITEM, REVERSEITEMS — cyclic
-structures allowed), what a walk over stacks, slots and compounds finds never exceeds the
+PACKSTRUCT, PACKMAP, UNPACK, KEYS, VALUES, CONVERT, APPEND, SETITEM, REMOVE, CLEARITEMS, POPITEM,
+PICKITEM, REVERSEITEMS, Struct cloning in APPEND/SETITEM/VALUES — i.e. every modelled instruction;
+cyclic structures allowed; side conditions `SOp.okFor`: map keys are primitives and a map's
+children come in pairs, which the real VM guarantees by faulting on any other key), what a walk over stacks, slots and compounds finds never exceeds the
 implementation's counter. -/
 theorem refs_sound (s : St) (h : Run s) : (s.reach : Int) ≤ s.c.refs := VmAcct.refs_sound h
 
@@ -74,9 +76,7 @@ example : ∃ s, Run s ∧ s.c.refs = 1 ∧ s.reach = 0 := by
 
 /-- **refs_exact.** If no cyclic structure was ever built during the run (the heap, garbage
 included, was acyclic before every step and is acyclic now) and exception unwinding never dropped
-an evaluation stack with content, the implementation's counter EQUALS what a walk finds.
-(`RunExact` also carries `base = []`: the VM's first stack object holds nothing, as in a VM that
-starts by loading the entry script on an empty stack.) -/
+an evaluation stack with content, the implementation's counter EQUALS what a walk finds. -/
 theorem refs_exact (s : St) (h : RunExact s) (ha : Acyclic s.c.heap) : s.c.refs = (s.reach : Int) :=
   VmAcct.refs_exact h ha
 
@@ -90,10 +90,10 @@ theorem acyclic_of_prims (h : Heap) (hp : ∀ j, ∀ x ∈ chOf h j, x = .prim) 
 
 set_option maxRecDepth 20000 in
 example : ∃ s, RunExact s ∧ Acyclic s.c.heap ∧ s.c.refs = 4 ∧ s.reach = 4 := by
-  have step1 : ∀ s op s', step s op none false = some s' → op.okFor s → Acyclic s.c.heap → s.base = [] →
+  have step1 : ∀ s op s', step s op none false = some s' → op.okFor s → Acyclic s.c.heap →
       RunExact s → RunExact s' := by
-    intro s op s' hs hok ha hb hr
-    exact RunExact.step op none false hr hok ha hb (by intro r x k c _ _ hu; cases hu) hs
+    intro s op s' hs hok ha hr
+    exact RunExact.step op none false hr hok ha (by intro r x k c _ _ hu; cases hu) hs
   let s1 : St := { St.init with c := { heap := [], refs := 1 }, frames := [{ own := some [.prim], isScript := true, retCount := 1 }] }
   let s2 : St := { St.init with c := { heap := [], refs := 2 }, frames := [{ own := some [.prim, .prim], isScript := true, retCount := 1 }] }
   let s3 : St := { St.init with c := { heap := [], refs := 3 }, frames := [{ own := some [.prim, .prim, .prim], isScript := true, retCount := 1 }] }
@@ -115,19 +115,19 @@ example : ∃ s, RunExact s ∧ Acyclic s.c.heap ∧ s.c.refs = 4 ∧ s.reach = 
   have ok0 : ∀ s, (Op.s (.generic 0 1)).okFor s := fun s => ⟨rfl, trivial⟩
   have r1 : RunExact s1 := step1 St.init (.s (.generic 0 1)) s1 (by
     simp [s1, step, exec, execS, St.init, St.w, St.setW, St.cur, St.setCur, curOf, setCurOf, ok, W.popN, W.pushPrims, W.push,
-      Ctr.add, addW, Item.cid, maxStackSize]) (ok0 _) a0 rfl RunExact.init
+      Ctr.add, addW, Item.cid, maxStackSize]) (ok0 _) a0 RunExact.init
   have r2 : RunExact s2 := step1 s1 (.s (.generic 0 1)) s2 (by
     simp [s1, s2, step, exec, execS, St.init, St.w, St.setW, St.cur, St.setCur, curOf, setCurOf, ok, W.popN, W.pushPrims, W.push,
-      Ctr.add, addW, Item.cid, maxStackSize]) (ok0 _) a0 rfl r1
+      Ctr.add, addW, Item.cid, maxStackSize]) (ok0 _) a0 r1
   have r3 : RunExact s3 := step1 s2 (.s (.generic 0 1)) s3 (by
     simp [s2, s3, step, exec, execS, St.init, St.w, St.setW, St.cur, St.setCur, curOf, setCurOf, ok, W.popN, W.pushPrims, W.push,
-      Ctr.add, addW, Item.cid, maxStackSize]) (ok0 _) a0 rfl r2
+      Ctr.add, addW, Item.cid, maxStackSize]) (ok0 _) a0 r2
   have r4 : RunExact s4 := step1 s3 (.s (.pack .arr 2)) s4 (by
     simp [s3, s4, h1, step, exec, execS, St.init, St.w, St.setW, St.cur, St.setCur, curOf, setCurOf, ok, okW, W.pop, W.alloc,
-      W.setHeap, W.pushNoRef, W.addRefs, Kind.mk, Ctr.rem, remW, Item.cid, maxStackSize]) ⟨rfl, trivial⟩ a0 rfl r3
+      W.setHeap, W.pushNoRef, W.addRefs, Kind.mk, Ctr.rem, remW, Item.cid, maxStackSize]) ⟨rfl, trivial⟩ a0 r3
   have r5 : RunExact s5 := step1 s4 (.s .dup) s5 (by
     simp [s4, s5, h1, h2, step, exec, execS, St.init, St.w, St.setW, St.cur, St.setCur, curOf, setCurOf, ok, okW, W.push,
-      Ctr.add, addW, Item.cid, rcOf, incRC, maxStackSize]) ⟨rfl, trivial⟩ a1 rfl r4
+      Ctr.add, addW, Item.cid, rcOf, incRC, maxStackSize]) ⟨rfl, trivial⟩ a1 r4
   refine ⟨s5, r5, a2, rfl, ?_⟩
   simp [s5, h2, St.init, St.reach, reachFrom, St.roots, Frame.roots, slotItems, walk, Item.cid, chOf, childSum]
 
@@ -165,7 +165,7 @@ run is an ordinary covered run: counter = walk = 2. -/
 theorem map_remove_run_after_fix :
     (runOps St.init mapRemoveWitness).map (fun s => (s.c.refs, s.reach)) = some (2, 2) := by
   simp [runOps, mapRemoveWitness, step, exec, execS, St.init, St.w, St.setW, St.cur, St.setCur, curOf, setCurOf, ok, okW, W.popN,
-    W.pushPrims, W.push, W.pop, W.popNoRef, W.alloc, W.setHeap, W.cloneIfStruct, Ctr.add, Ctr.rem, addW, remW, Item.cid,
+    W.pushPrims, W.push, W.pop, W.popNoRef, W.alloc, W.setHeap, W.cloneIfStruct, setitemTail, Ctr.add, Ctr.rem, addW, remW, Item.cid,
     slotGet, slotSet, slotItems, Kind.mk, rcOf, chOf, incRC, decRC, setCh,
     St.reach, reachFrom, St.roots, Frame.roots, walk, childSum, maxStackSize]
 
